@@ -82,6 +82,13 @@ fn inline(j: &J) -> J {
     match j[0].as_str().unwrap() { "ref" => json!(["agg", j[1], j[2]]), "app1" => json!(["app1", j[1], inline(&j[2])]), "app2" => json!(["app2", j[1], inline(&j[2]), inline(&j[3])]), _ => j.clone() }
 }
 
+/// two different expressions (or aggregates) of one layer carry the same content-derived name
+fn layer_name_collision(top: &Map) -> bool {
+    fn dup<T: PartialEq>(v: &[(String, T)]) -> bool { v.iter().enumerate().any(|(i, (n, e))| v[..i].iter().any(|(m, f)| m == n && f != e)) }
+    let bottom = top.reduce().and_then(|r| r.map());
+    bottom.map(|b| dup(b.named_exprs())).unwrap_or(false) || top.reduce().map(|r| dup(r.named_aggregates())).unwrap_or(false) || dup(top.named_exprs())
+}
+
 pub fn eval(case: &J) -> Outcome {
     let mut out = Outcome::new();
     let item = &case["item"];
@@ -92,10 +99,11 @@ pub fn eval(case: &J) -> Outcome {
     let top: Map = match split { Split::Map(m) => m, Split::Reduce(r) => r.into_map() };
     match dump(&top) {
         Ok(d) => {
-            if inline(&d["post"]) != *item { out.fail("C08/split/item-changed", format!("{expr} is split into layers that recombine to {} (layers: {top})", inline(&d["post"]))); }
+            if inline(&d["post"]) != *item { out.fail(if layer_name_collision(&top) { "C08/split/name-collision" } else { "C08/split/item-changed" }, format!("{expr} is split into layers that recombine to {} (layers: {top})", inline(&d["post"]))); }
             if d["extra"].as_bool().unwrap_or(false) { out.tag("unused-reduce-columns"); }
             let mut d = d; d.as_object_mut().unwrap().remove("extra");
-            out.imp = d;
+            // with colliding names the layers are corrupt in a way the model (which assumes injective names) does not describe
+            out.imp = if layer_name_collision(&top) { J::Null } else { d };
         }
         Err(e) => { out.imp = json!({"error": e}); out.fail("C08/split/layers-inconsistent", format!("{expr}: {e} (layers: {top})")); }
     }
